@@ -189,6 +189,31 @@ def run(R):
                     forb.append(n)
             c.check(not forb, f, forb[0] if forb else None,
                     'no direct access to the transport or the stores', tag='through-expect', kind='ast')
+            # ... nor to the results and the pending text: before / after / match / match_index / buffer are set by the Expecter only (a reader
+            # that hands out or rewrites the pending text itself -- a "fast path when enough is buffered" -- works on the TRIMMED search buffer
+            # and bypasses the search); what a reader returns comes out of an expect() call (or is empty)
+            own = []
+            for n in iter_nodes(f.node):
+                if isinstance(n, (ast.Assign, ast.AugAssign, ast.AnnAssign, ast.Delete)):
+                    tgs = assigned_targets(n) if not isinstance(n, ast.Delete) else n.targets
+                    for t_ in tgs:
+                        if isinstance(t_, ast.Attribute) and t_.attr in ('before', 'after', 'match', 'match_index', 'buffer'):
+                            own.append(n)
+                if isinstance(n, ast.Attribute) and isinstance(n.ctx, ast.Load) and n.attr == 'buffer' and isinstance(n.value, ast.Name) and n.value.id == 'self':
+                    own.append(n)
+            c.check(not own, f, own[0] if own else None, 'the reader neither sets the results / the pending text itself nor reads the search buffer',
+                    witness=norm(own[0])[:80] if own else None, tag='results-by-expecter', kind='ast')
+            g_ = f.cfg
+            via = set(n_ for n_, k_ in cfg_nodes_with_call(f, lambda k_: callee_last(k_) in ('expect', 'expect_exact', 'expect_list') + tuple(READERS)
+                                                           and isinstance(k_.func, ast.Attribute) and isinstance(k_.func.value, ast.Name) and k_.func.value.id == 'self'))
+            for r_ in returns(f):
+                v_ = r_.ast.value
+                empty = v_ is None or isinstance(v_, ast.Constant) or (isinstance(v_, ast.Name) and v_.id == 'self') or \
+                    (isinstance(v_, ast.Call) and norm(v_.func) == 'self.string_type' and not v_.args) or \
+                    (isinstance(v_, ast.Call) and norm(v_.func) == 'iter' and v_.args and isinstance(v_.args[0], ast.Attribute)
+                     and v_.args[0].attr in READERS and isinstance(v_.args[0].value, ast.Name) and v_.args[0].value.id == 'self')
+                okr = empty or r_ in via or (via and g_.dominated_by(r_, via)[0])
+                c.check(okr, f, r_.ast, 'what the reader returns comes out of an expect() call (or is empty)', witness=norm(r_.ast)[:80], tag='returns-through-expect', kind='path')
         for cls in repo.subclasses('SpawnBase'):
             for name in READERS:
                 if cls.name != 'SpawnBase' and name in cls.methods:
